@@ -48,8 +48,9 @@ struct CTerm
     }
 };
 
-void t_vterm_c(Src &s, Case &c) { run_terminal<CTerm>(s, c, false, "vterm_c"); }
-void t_vterm_c_enum(Src &s, Case &c) { run_terminal<CTerm>(s, c, true, "vterm_c"); }
+void t_vterm_c(Src &s, Case &c) { run_terminal<CTerm>(s, c, 0, "vterm_c"); }
+void t_vterm_c_enum(Src &s, Case &c) { run_terminal<CTerm>(s, c, 1, "vterm_c"); }
+void t_vterm_c_long(Src &s, Case &c) { run_terminal<CTerm>(s, c, 2, "vterm_c"); }
 
 // =========================================================================
 // sline: struct sline (exact heap buffer) and igris::sline in lock step with a string
@@ -246,6 +247,9 @@ VP_TARGET("vterm_c", t_vterm_c,
           "vterm.c: capacity 2..24, history depth 1..4, <= 120 keys (text over few letters, BS, arrows, DEL, CR, LF, CRLF, LFCR, ^C, unknown escapes, lone ESC), one "
           "byte per newdata call + idle step; execute/signal callbacks, VT100 screen row and cursor, line bounds and content against the reference editor after "
           "every byte; non-trivial = an edit with the cursor inside the line, a history recall after >= 2 stored lines, or typing into a full line");
+VP_TARGET("vterm_c_long", t_vterm_c_long,
+          "vterm.c with line capacity 250..262, history depth 1..3: 0..2 short lines, then one run of capacity-8..capacity+1 equal characters (cursor and length "
+          "pass 255, the line fills up), then <= 10 random keys (arrows, recalls, BS, DEL, CR, ...); same checks after every byte; non-trivial as for vterm_c");
 VP_TARGET("vterm_c_enum", t_vterm_c_enum,
           "exhaustive (vterm.c): every sequence of <= 5 (quick) / <= 7 (thorough) keys over {a,b,BS,LEFT,RIGHT,DEL,UP,DOWN,CR,LF,^C,ESC-x} x capacity {2,3,4,8} x history depth {1,2}",
           term_enum_size);
